@@ -26,6 +26,7 @@
     `objVoidFree p`: the patch document contains no void (a JSON reader never produces one).
 -/
 import JdProofs.MergeProofs
+import JdProps.C09Text
 
 namespace Jd.Props.C12
 open Jd Jd.Spec Jd.Merge
